@@ -24,6 +24,7 @@ def run(rep, props, replay=None):
     runq = C.CoqRun("C09", IMPORTS)
     todo = []
     n_cases = 24 if quick else 300
+    first_call_history(rep, rng)
     for i in range(n_cases):
         kind = fd.GRID_KINDS[i % len(fd.GRID_KINDS)]
         n = int(rng.integers(2, 9 if quick else 40))
@@ -118,6 +119,34 @@ def monitors_cov(rep, rng, d, cov, x, X):
         rep.violation("covariance: " + "; ".join(bad), {"x": C.hexf(x), "X": C.hexf(X)})
 
 
+def first_call_history(rep, rng):
+    """The very first covariance call of the process is a SMOOTHED one (on another dataset); plain covariances computed
+    afterwards — same object and a fresh one — must still be the unbiased sample covariance (nothing may stick in module- or
+    function-level state such as mutable default arguments)."""
+    import warnings
+    x = np.linspace(0, 1, 9)
+    Xa = fd.smooth_curves(rng, 6, x) + 0.1 * rng.normal(size=(6, 9))
+    Xb = np.round((fd.smooth_curves(rng, 5, x) * 3 + x ** 2 * 4 + rng.normal(size=(5, 9))) * 64) / 64
+    da, db = fd.dense(x, Xa), fd.dense(x, Xb)
+    bad = []
+    for meth, kw in (("LP", {"bandwidth": 0.5}), ("PS", {"n_segments": 3, "penalty": (5.0, 5.0)})):
+        try:
+            with warnings.catch_warnings():
+                warnings.simplefilter("ignore")
+                da.covariance(method_smoothing=meth, **kw)
+        except Exception as e:  # noqa: BLE001
+            rep.notes.append(f"first-call history: smoothed covariance {meth} raised {type(e).__name__}: {e}"[:160])
+        for lab, obj, X in (("the same object", da, Xa), ("another dataset", db, Xb)):
+            c = np.asarray(obj.covariance().values)[0]
+            ref = np.cov(X.T, ddof=1)
+            if np.max(np.abs(c - ref)) > 1e-9 * max(1.0, float(np.max(np.abs(ref)))):
+                bad.append(f"after a {meth}-smoothed covariance call, covariance() of {lab} differs from the unbiased sample "
+                           f"covariance by {np.max(np.abs(c - ref)):.3g}")
+    rep.case(("first-call-history", Xa.tobytes()), kind="history/smoothed-covariance-first")
+    if bad:
+        rep.violation("history dependence across calls: " + "; ".join(bad), {"x": C.hexf(x), "Xa": C.hexf(Xa), "Xb": C.hexf(Xb)})
+
+
 def monitors_history(rep, d, mu, cov, x, X, i):
     """The estimators are functions of the data, not of what was asked of the object before."""
     import warnings
@@ -145,6 +174,18 @@ def monitors_history(rep, d, mu, cov, x, X, i):
     mu2 = np.asarray(d.mean().values)[0]
     if np.max(np.abs(mu2 - mu)) > 1e-12 * sc:
         bad.append("mean() after a smoothed mean() differs from the pointwise average")
+    # ... and after the curves are replaced through the values setter the estimators describe the NEW curves
+    from FDApy.representation.values import DenseValues
+    Xn = np.round((X[::-1] * 0.75 - 1.0) * 64) / 64 + np.arange(X.shape[1]) * 0.125
+    ds = fd.dense(x, X)                       # (a separate object: the caller goes on using d)
+    ds.mean(); ds.covariance(); ds.center()
+    ds.values = DenseValues(Xn)
+    mu3 = np.asarray(ds.mean().values)[0]
+    cov3 = np.asarray(ds.covariance().values)[0]
+    if np.max(np.abs(mu3 - Xn.mean(axis=0))) > 1e-12 * sc:
+        bad.append("mean() after replacing the curves through the values setter is not the average of the new curves")
+    if Xn.shape[0] >= 2 and np.max(np.abs(cov3 - np.cov(Xn.T, ddof=1))) > 1e-9 * sc * sc:
+        bad.append("covariance() after replacing the curves through the values setter is not the sample covariance of the new curves")
     rep.case(("history", X.tobytes()), kind="history/smoothed-mean-then-plain")
     if bad:
         rep.violation("history dependence: " + "; ".join(bad), {"x": C.hexf(x), "X": C.hexf(X), "first": "LP" if i % 2 == 0 else "PS"})
